@@ -1,1 +1,219 @@
+(** C05 statements instantiated at the ring Z (the general versions live in IsoProofs.v), the
+    collapse of every generated stoichiometry, and the two machine-checked counter-examples. *)
+From Coq Require Import List ZArith NArith Bool Arith Lia Permutation Ring InitialRing.
+From MxlBase Require Import ListX.
+From Label Require Import LModel Iso Linear Algebra IsoProofs IsoInitProofs.
+Import ListNotations.
 
+Definition idZ (z : Z) : Z := z.
+Definition derivZ (env : lname -> Z) (rxns : list lrxn) (X : lname) : Z :=
+  deriv Z 0%Z 1%Z Z.add Z.mul Z.opp idZ idZ env rxns X.
+Definition coefZ (rx : lrxn) (X : lname) : Z :=
+  coef_at Z 0%Z 1%Z Z.add Z.mul Z.opp idZ idZ (fun _ => 0%Z) rx X.
+Definition prodZ (l : list Z) : Z := fold_right Z.mul 1%Z l.
+(** total amount of compound [a] in the isotopomer state [env] (an unlabelled name is its own total) *)
+Definition totalZ (lv : label_vars) (env : lname -> Z) (a : N) : Z :=
+  sumZ (map (fun q => env (iso_name a q)) (all_patterns (nlab lv a))).
+
+Theorem dynamics_collapse_rxn_Z :
+  forall (lv : label_vars) (r : brxn) (lmap : list Z) (env : lname -> Z) (extra : list N) (c : N) (rxns : list lrxn),
+    r_fn r = FProd ->
+    Permutation (r_args r) (subs_of (r_stoich r) ++ extra) ->
+    NoDup (map fst (r_stoich r)) ->
+    NoDup (subs_of (r_stoich r)) ->
+    (forall a, In a extra -> ~ In a (subs_of (r_stoich r)) /\ ~ In a (prods_of (r_stoich r)) /\ nlab lv a = 0) ->
+    create_iso_rxns true lv r lmap = Ok rxns ->
+    total (labels_per lv (prods_of (r_stoich r))) <= length lmap ->
+    sumZ (map (fun bits => derivZ env rxns (iso_name c bits)) (all_patterns (nlab lv c)))
+    = ((match getN c (r_stoich r) with Some v => v | None => 0 end)
+       * prodZ (map (totalZ lv env) (r_args r)))%Z.
+Proof.
+  intros lv r lmap env extra c rxns H1 H2 H3 H4 H5 H6 H7.
+  exact (dynamics_collapse_rxn Z 0%Z 1%Z Z.add Z.mul Z.sub Z.opp idZ idZ Zth eq_refl eq_refl
+           (fun _ _ => eq_refl) (fun _ => eq_refl) true lv r lmap env extra H1 H2 H3 H4 H5 c rxns H6 H7).
+Qed.
+
+(** keys of a repacked stoichiometry *)
+Lemma setL_keys {V} a (v : V) d k z : In (k, z) (setL a v d) -> k = a \/ In (k, z) d.
+Proof.
+  unfold setL. induction d as [|[k0 v0] d IH]; cbn; intro H.
+  - destruct H as [H|[]]. inversion H. left. reflexivity.
+  - destruct (lname_eq_dec a k0) as [->|Hne]; cbn in H.
+    + destruct H as [H|H]; [inversion H; left; reflexivity|right; right; exact H].
+    + destruct H as [H|H]; [right; left; exact H|]. destruct (IH H) as [->|Hd]; [left; reflexivity|right; right; exact Hd].
+Qed.
+
+Lemma dict_add_keys a dz d k z : In (k, z) (dict_add a dz d) -> k = a \/ exists z', In (k, z') d.
+Proof.
+  unfold dict_add. destruct (getL a d) as [v|].
+  - intro H. apply setL_keys in H. destruct H as [->|H]; [left; reflexivity|right; exists z; exact H].
+  - intro H. apply in_app_or in H. destruct H as [H|[H|[]]]; [right; exists z; exact H|inversion H; left; reflexivity].
+Qed.
+
+Lemma fold_add_keys dz l d0 k z :
+  In (k, z) (fold_left (fun d a => dict_add a dz d) l d0) -> In k l \/ exists z', In (k, z') d0.
+Proof.
+  revert d0 z. induction l as [|a l IH]; intros d0 z H; cbn in H; [right; exists z; exact H|].
+  destruct (IH _ _ H) as [Hl|[z' Hd]]; [left; right; exact Hl|].
+  apply dict_add_keys in Hd. destruct Hd as [->|Hd]; [left; left; reflexivity|right; exact Hd].
+Qed.
+
+Lemma repack_keys ns np k z : In (k, z) (repack ns np) -> In k ns \/ In k np.
+Proof.
+  unfold repack. intro H. apply fold_add_keys in H. destruct H as [H|[z' H]]; [right; exact H|].
+  apply fold_add_keys in H. destruct H as [H|[z'' []]]. left. exact H.
+Qed.
+
+(** C05, structure of one generated reaction: every stoichiometric key is an isotopomer (right number
+    of label positions) of a compound of the base reaction, and per compound the coefficients sum to
+    the base coefficient *)
+Theorem collapse_stoichiometry :
+  forall (ext_bit : bool) (lv : label_vars) (r : brxn) (lmap : list Z) (rxns : list lrxn) (rx : lrxn),
+    NoDup (map fst (r_stoich r)) ->
+    create_iso_rxns ext_bit lv r lmap = Ok rxns ->
+    total (labels_per lv (prods_of (r_stoich r))) <= length lmap ->
+    In rx rxns ->
+    (forall Y co, In (Y, co) (lr_stoich rx) ->
+       exists c q z, Y = iso_name c q /\ length q = nlab lv c /\ co = CZ z
+                     /\ (In c (subs_of (r_stoich r)) \/ In c (prods_of (r_stoich r))))
+    /\ (forall c, sumZ (map (fun bits => coefZ rx (iso_name c bits)) (all_patterns (nlab lv c)))
+                  = match getN c (r_stoich r) with Some v => v | None => 0%Z end).
+Proof.
+  intros ext_bit lv r lmap rxns rx Hnd Hc Hl Hin.
+  pose proof (create_ok_shape _ _ _ _ _ Hc) as [Hlen [Hrx Hs]]. subst rxns.
+  apply in_map_iff in Hin. destruct Hin as [p [<- Hp]].
+  pose proof (subpairs_wf ext_bit lv r p Hp) as Hws.
+  assert (Hwp : wf_pairs (nlab lv) (prodpairs ext_bit lv r lmap p)).
+  { unfold prodpairs, labels_per. apply wf_pairs_split. specialize (Hs p Hp). apply mapM_length in Hs.
+    unfold labels_per in Hl. rewrite Hs. lia. }
+  split.
+  - intros Y co HY. rewrite (mk_iso_rxn_stoich ext_bit lv r lmap p) in HY.
+    apply in_map_iff in HY. destruct HY as [[k z] [Heq Hk]]. cbn in Heq. inversion Heq; subst Y co.
+    apply repack_keys in Hk.
+    assert (Hgen : forall pairs cs sufs, pairs = combine cs sufs -> wf_pairs (nlab lv) pairs ->
+               In k (map (fun cq => iso_name (fst cq) (snd cq)) pairs) ->
+               exists c q, k = iso_name c q /\ length q = nlab lv c /\ In c cs).
+    { intros pairs cs sufs -> Hwf Hk'. apply in_map_iff in Hk'. destruct Hk' as [[c q] [<- Hcq]].
+      exists c, q. split; [reflexivity|split].
+      - unfold wf_pairs in Hwf. rewrite Forall_forall in Hwf. apply (Hwf _ Hcq).
+      - apply in_combine_l in Hcq. exact Hcq. }
+    destruct Hk as [Hk|Hk].
+    + destruct (Hgen _ _ _ eq_refl Hws Hk) as [c [q [H1 [H2 H3]]]]. exists c, q, z. auto.
+    + destruct (Hgen _ _ _ eq_refl Hwp Hk) as [c [q [H1 [H2 H3]]]]. exists c, q, z. auto.
+  - intro c. unfold coefZ.
+    rewrite (map_ext _ (fun bits => (1 * idZ (Z.of_nat (count_occ lname_eq_dec
+                 (map (fun cq => iso_name (fst cq) (snd cq)) (prodpairs ext_bit lv r lmap p)) (iso_name c bits)))
+              - 1 * idZ (Z.of_nat (count_occ lname_eq_dec
+                 (map (fun cq => iso_name (fst cq) (snd cq)) (subpairs ext_bit lv r p)) (iso_name c bits))))%Z)).
+    2:{ intro bits. rewrite (coef_at_CZ' Z 0%Z 1%Z Z.add Z.mul Z.opp idZ idZ eq_refl (fun _ _ => eq_refl) _ _ _ _
+                              (mk_iso_rxn_stoich ext_bit lv r lmap p)).
+        rewrite tc_repack. unfold idZ. lia. }
+    change sumZ with (sumR Z 0%Z Z.add).
+    rewrite (sum_map_sub Z 0%Z 1%Z Z.add Z.mul Z.sub Z.opp Zth).
+    pose proof (collapse_g Z 0%Z 1%Z Z.add Z.mul Z.sub Z.opp idZ Zth eq_refl eq_refl (fun _ _ => eq_refl)
+                  (nlab lv) (fun _ => 1%Z)) as Hcg. unfold ofNat in Hcg.
+    rewrite (Hcg _ c Hwp), (Hcg _ c Hws).
+    unfold prodpairs, subpairs.
+    rewrite !(Gsum_one Z 0%Z 1%Z Z.add Z.mul Z.sub Z.opp idZ Zth eq_refl eq_refl (fun _ _ => eq_refl))
+      by (rewrite split_label_length; unfold labels_per; rewrite map_length; reflexivity).
+    unfold ofNat, idZ. apply net_stoichiometry. exact Hnd.
+Qed.
+
+(** ---- counter-examples (the code violates the unguarded statements) ----------------------------- *)
+(* 2A -> B, A with one label, B with two, map [0;1], mass action k*A*A *)
+Definition hd_lv : label_vars := [(1%N, 1); (2%N, 2)].
+Definition hd_rxn : brxn := mkBR 40%N FProd [1%N; 1%N; 20%N] [(1%N, (-2)%Z); (2%N, 1%Z)].
+Definition hd_env (x : lname) : Z :=
+  match x with
+  | LIso 1%N [false] => 3%Z | LIso 1%N [true] => 1%Z | LPlain 20%N => 1%Z | _ => 0%Z
+  end.
+
+Theorem homodimer_refuted :
+  exists (lv : label_vars) (r : brxn) (lmap : list Z) (env : lname -> Z) (extra : list N) (c : N) (rxns : list lrxn),
+    r_fn r = FProd /\
+    Permutation (r_args r) (subs_of (r_stoich r) ++ extra) /\
+    NoDup (map fst (r_stoich r)) /\
+    (forall a, In a extra -> ~ In a (subs_of (r_stoich r)) /\ ~ In a (prods_of (r_stoich r)) /\ nlab lv a = 0) /\
+    create_iso_rxns true lv r lmap = Ok rxns /\
+    total (labels_per lv (prods_of (r_stoich r))) <= length lmap /\
+    sumZ (map (fun bits => derivZ env rxns (iso_name c bits)) (all_patterns (nlab lv c))) = (-40)%Z /\
+    ((match getN c (r_stoich r) with Some v => v | None => 0 end) * prodZ (map (totalZ lv env) (r_args r)))%Z = (-32)%Z.
+Proof.
+  exists hd_lv, hd_rxn, [0%Z; 1%Z], hd_env, [20%N], 1%N.
+  destruct (create_iso_rxns true hd_lv hd_rxn [0%Z; 1%Z]) as [rxns|e] eqn:Hc; [|vm_compute in Hc; discriminate].
+  exists rxns. repeat split.
+  - vm_compute. apply Permutation_refl.
+  - vm_compute. repeat constructor; cbn; intuition discriminate.
+  - destruct H as [<-|[]]. vm_compute. intuition discriminate.
+  - destruct H as [<-|[]]. vm_compute. intuition discriminate.
+  - destruct H as [<-|[]]. reflexivity.
+  - vm_compute. lia.
+  - vm_compute in Hc. inversion Hc; subst rxns. vm_compute. reflexivity.
+Qed.
+
+(* label_variables = {A: 0}, initial_labels = {A: []}: the amount goes to the stray name "A__" *)
+Theorem zero_label_initial_refuted :
+  exists (lv : label_vars) (init : init_labels) (bvars : list (N * Z)) (c : N) (v : Z) (n : nat),
+    NoDup (map fst bvars) /\ NoDup (map fst lv) /\ In (c, v) bvars /\ getN c lv = Some n /\
+    sumZ (map (fun bits => match getL (iso_name c bits) (build_vars lv init bvars) with Some x => x | None => 0%Z end)
+              (all_patterns n)) <> v.
+Proof.
+  exists [(1%N, 0)], [(1%N, IList [])], [(1%N, 4%Z)], 1%N, 4%Z, 0.
+  repeat split.
+  all: try (repeat constructor; cbn; intuition discriminate).
+  all: try (left; reflexivity).
+  all: try (vm_compute; discriminate).
+Qed.
+
+(** non-vacuity: a bimolecular reaction A(2 labels) + U(unlabelled) -> B(2) with the swap map meets
+    every hypothesis of the dynamics theorem and is built *)
+Definition nv_lv : label_vars := [(1%N, 2); (2%N, 2)].
+Definition nv_rxn : brxn := mkBR 41%N FProd [3%N; 20%N; 1%N] [(1%N, (-1)%Z); (3%N, (-1)%Z); (2%N, 1%Z)].
+Example dynamics_nonvacuous :
+  r_fn nv_rxn = FProd /\
+  Permutation (r_args nv_rxn) (subs_of (r_stoich nv_rxn) ++ [20%N]) /\
+  NoDup (map fst (r_stoich nv_rxn)) /\ NoDup (subs_of (r_stoich nv_rxn)) /\
+  (forall a, In a [20%N] -> ~ In a (subs_of (r_stoich nv_rxn)) /\ ~ In a (prods_of (r_stoich nv_rxn)) /\ nlab nv_lv a = 0) /\
+  (exists rxns, create_iso_rxns true nv_lv nv_rxn [1%Z; 0%Z] = Ok rxns /\ length rxns = 4) /\
+  total (labels_per nv_lv (prods_of (r_stoich nv_rxn))) <= length [1%Z; 0%Z].
+Proof.
+  repeat split.
+  - vm_compute. apply Permutation_sym. apply (Permutation_trans (l' := [3%N; 1%N; 20%N])).
+    + apply perm_swap.
+    + apply perm_skip. apply perm_swap.
+  - vm_compute. repeat constructor; cbn; intuition discriminate.
+  - vm_compute. repeat constructor; cbn; intuition discriminate.
+  - destruct H as [<-|[]]. vm_compute. intuition discriminate.
+  - destruct H as [<-|[]]. vm_compute. intuition discriminate.
+  - destruct H as [<-|[]]. reflexivity.
+  - destruct (create_iso_rxns true nv_lv nv_rxn [1%Z; 0%Z]) as [rxns|e] eqn:Hc; [|vm_compute in Hc; discriminate].
+    exists rxns. split; [reflexivity|]. vm_compute in Hc. inversion Hc. reflexivity.
+  - vm_compute. lia.
+Qed.
+
+(** a short map anywhere in label_maps makes build_model fail *)
+Lemma build_short_map_rejected ext_bit lv lmaps init bm r lmap :
+  In r (b_rxns bm) -> getN (r_name r) lmaps = Some lmap ->
+  length lmap < total (labels_per lv (subs_of (r_stoich r))) ->
+  exists e, build_iso ext_bit lv lmaps init bm = Err e.
+Proof.
+  intros Hin Hm Hshort. unfold build_iso.
+  destruct (collect_map_err
+              (fun r0 => match getN (r_name r0) lmaps with
+                         | None => Ok [mkLR (LPlain (r_name r0)) (r_fn r0) (map (total_name lv) (r_args r0))
+                                            (map (fun kz => (LPlain (fst kz), CZ (snd kz))) (r_stoich r0))]
+                         | Some lmap0 => create_iso_rxns ext_bit lv r0 lmap0
+                         end) (b_rxns bm) r ErrValue Hin) as [e He].
+  - rewrite Hm. apply short_map_rejected. exact Hshort.
+  - exists e. rewrite He. reflexivity.
+Qed.
+
+Lemma ext_bit_pinned_true : forall f, f_ext_bit f = Some true -> ext_bit_of f = true.
+Proof. intros f H. unfold ext_bit_of. rewrite H. reflexivity. Qed.
+
+Lemma patterns_enumerated n :
+  (forall p, In p (all_patterns n) <-> length p = n) /\ NoDup (all_patterns n) /\ length (all_patterns n) = 2 ^ n.
+Proof.
+  split; [|split; [apply all_patterns_NoDup|apply all_patterns_count]].
+  intro p. split; [apply all_patterns_length|apply all_patterns_complete].
+Qed.
